@@ -433,6 +433,14 @@ def run(ctx):
     for sc, o in zip(scs, outs):
         sc.compare(ctx, o, "fault-loop")
 
+    # whole fixed-step runs abandoned by a fault, against the Lean whole-run model (DV.Run.integrateFault), and adaptive explicit runs
+    # (with and without faults) judged step by step: every recorded state is its predecessor advanced by one step of the scheme
+    import random as _random, runsim
+    _r = _random.Random(ctx.seed * 7919 + 12)
+    runsim.fault_run_block(ctx, _r, 2 if ctx.quick() else 12)
+    runsim.adaptive_steps_block(ctx, _r, 2 if ctx.quick() else 12, faults=True)
+
+
 
 def replay(rep):
     return False
